@@ -51,7 +51,13 @@ def check_partition(ctx, mod, cls):
     problems = []
     copies = [n for n, vs in asg.items() if any(src(v).replace(' ', '') == '%s.get_state().copy()' % parent for v in vs)]
     if len(copies) != 2:
-        raise AnalysisError('%s.partition: the two daughter state copies not found (%s)' % (cls, copies))
+        # not the spelling this (older, syntactic) rule knows: the element-view analysis decides on its own
+        sem, n_cases = check_partition_semantic(ctx, mod, cls, f)
+        ctx.ob('R19.1-conservation', cls, not sem, where,
+               'per species class, what partition() computes for one species: conserved classes d + e = m (binomial: d is the draw over m), '
+               'duplicated species m and m (%d class x mode cases by symbolic execution)' % n_cases, '; '.join(sem[:3]))
+        pv = [src(c.args[1]).replace(' ', '') for c in util.calls_in(f, suffix='binom_rnd_f') if len(c.args) == 2]
+        return f, copies, (pv[0] if pv else None)
     for n in copies:
         if len(asg[n]) != 1:
             problems.append('%s is re-bound after being copied from the mother' % n)
@@ -121,10 +127,167 @@ def check_partition(ctx, mod, cls):
             p_var = a[1]
     if conserved == 0:
         problems.append('no conserving partition loop found')
+    # what the function computes per species class (element view, symbolic execution) decides; the spelling-based findings above are
+    # only reported when that analysis agrees that something is wrong
+    sem, n_cases = check_partition_semantic(ctx, mod, cls, f)
+    if not sem:
+        problems = []
+    else:
+        problems = sem + problems
     ctx.ob('R19.1-conservation', cls, not problems, where,
-           'daughter states are copies of the mother; per conserved species the writes are d[i] = X then e[i] -= d[i] on every path',
+           'per species class, what partition() computes for one species: conserved classes d + e = m (binomial: d is the draw over m), '
+           'duplicated species m and m (%d class x mode cases by symbolic execution)' % n_cases,
            '; '.join(problems[:3]))
     return f, copies, p_var
+
+
+def _loop_class(lp, f):
+    """which species a top-level loop of partition() runs over: ('class', 'perfect_indices') | ('all', None) | None"""
+    it = src(lp.iter).replace(' ', '')
+    if it.startswith('range(self.') and it.endswith('.size())'):
+        return ('class', it[len('range(self.'):-len('.size())')])
+    if it.startswith('range(len(self.') and it.endswith('))'):
+        return ('class', it[len('range(len(self.'):-2])
+    if it.startswith('range(') and it.endswith(')') and ',' not in it:
+        bound = it[len('range('):-1]
+        asg = simple_assigns(f)
+        for v in asg.get(bound, []):
+            t = src(v).replace(' ', '')
+            if t.endswith('.shape[0]') or (t.startswith('len(') and t.endswith(')')):
+                return ('all', None)
+        if bound.endswith('.shape[0]'):
+            return ('all', None)
+    return None
+
+
+class _ElementView(ast.NodeTransformer):
+    """A[idx] -> A for the local arrays of partition(): the body of the loop over one species class, seen for one species of that class"""
+
+    def __init__(self, idx_names):
+        self.idx = set(idx_names)
+
+    def visit_Subscript(self, n):
+        self.generic_visit(n)
+        if isinstance(n.value, ast.Name) and isinstance(n.slice, ast.Name) and n.slice.id in self.idx:
+            return ast.copy_location(ast.Name(id=n.value.id, ctx=n.ctx), n)
+        return n
+
+
+def partition_element_view(ctx, mod, cls, f, klass, mode=None):
+    """What partition() does to ONE species of class `klass` (an index vector name, 'all', or 'duplicate' = in no index vector), by symbolic
+    execution of the function with the loops over the other classes removed (they write other indices - checked) and the loop over this
+    class entered once.  Returns (problems, [(d, e)] per non-raising outcome merged, binomial draws)."""
+    import copy
+    parent = f.args.args[1].arg
+    problems = []
+    body = []
+    for st in f.body:
+        if not isinstance(st, ast.For):
+            body.append(st)
+            continue
+        lc = _loop_class(st, f)
+        if lc is None:
+            raise AnalysisError('%s.partition: loop over %s not understood' % (cls, src(st.iter)))
+        lv = src(st.target)
+        idx_names = {lv} if lc[0] == 'all' else set()
+        inner = []
+        for b in st.body:
+            if lc[0] == 'class' and isinstance(b, ast.Assign) and len(b.targets) == 1 and isinstance(b.targets[0], ast.Name) and \
+                    src(b.value).replace(' ', '') == 'self.%s[%s]' % (lc[1], lv):
+                idx_names.add(b.targets[0].id)
+                continue
+            inner.append(b)
+        # every store into a local array inside this loop goes to the index of this loop's own class
+        for n in ast.walk(st):
+            if isinstance(n, (ast.Assign, ast.AugAssign)):
+                for t in (n.targets if isinstance(n, ast.Assign) else [n.target]):
+                    if isinstance(t, ast.Subscript) and isinstance(t.value, ast.Name) and not (isinstance(t.slice, ast.Name) and t.slice.id in idx_names):
+                        problems.append('the loop over %s stores into %s, not at the index of its own species' % (src(st.iter), src(t)))
+        mine = (lc[0] == 'all') or (lc[1] == klass)
+        if mine:
+            ev = _ElementView(idx_names)
+            for b in util.structure_continues(inner):       # `if c: ...; continue` skips the rest of this species only
+                body.append(ev.visit(copy.deepcopy(b)))
+    g = copy.copy(f)
+    g.body = body
+    M, V = symx.possym('m'), symx.possym('V')
+    draws, states = [], []
+
+    def call(n, env, se):
+        nm = src(n.func).replace(' ', '')
+        if nm == '%s.get_state' % parent:
+            return M
+        if nm == '%s.get_volume' % parent:
+            return V
+        if isinstance(n.func, ast.Attribute) and n.func.attr == 'copy' and not n.args:
+            return se.ex(n.func.value, env)
+        if nm.split('.')[-1] == 'binom_rnd_f' and len(n.args) == 2:
+            a, b = se.ex(n.args[0], env), se.ex(n.args[1], env)
+            draws.append((a, b))
+            return sp.Symbol('binomial#%d' % len(draws), nonnegative=True)
+        for kw in n.keywords:
+            if kw.arg == 'state':
+                states.append(se.ex(kw.value, env))
+        return None
+
+    def on_expr(s_, env, se):
+        c = s_.value
+        if isinstance(c, ast.Call) and isinstance(c.func, ast.Attribute) and c.func.attr in ('set_state', 'py_set_state') and len(c.args) == 1:
+            states.append(se.ex(c.args[0], env))
+        return True
+    se = symx.SymExec(ctx.prog, cls, call=call, fresh_calls=('uniform_rv',), max_inline=0)
+    se.on_expr = on_expr
+    env = {}
+    if mode is not None:
+        env['self.how_to_split_v'] = sp.Integer(mode)
+    try:
+        se.run_env(g, env)
+    except symx.Unsupported as e:
+        raise AnalysisError('%s.partition (species class %s): %s' % (cls, klass, e))
+    if len(states) != 2:
+        raise AnalysisError('%s.partition (species class %s): %d daughter states found, expected 2' % (cls, klass, len(states)))
+    return problems, M, states[0], states[1], draws
+
+
+def check_partition_semantic(ctx, mod, cls, f):
+    """R19.1-conservation decided on what partition() computes per species class (element view), not on how it is spelled."""
+    classes = []
+    for st in f.body:
+        if isinstance(st, ast.For):
+            lc = _loop_class(st, f)
+            if lc is None:
+                raise AnalysisError('%s.partition: loop over %s not understood' % (cls, src(st.iter)))
+            k_ = 'all' if lc[0] == 'all' else lc[1]
+            if k_ not in classes:
+                classes.append(k_)
+    if 'all' not in classes:
+        classes.append('duplicate')
+    problems = []
+    n_cases = 0
+    modes = [0, 1, 2] if cls == 'LineageVolumeSplitter' else [None]
+    for klass in classes:
+        if 'custom' in klass:
+            continue        # user code decides (ASSUMPTIONS)
+        for mode in modes:
+            pr, M, d, e, draws = partition_element_view(ctx, mod, cls, f, klass, mode)
+            n_cases += 1
+            tag = '%s%s' % (klass, '' if mode is None else ' (volume mode %d)' % mode)
+            problems += ['%s: %s' % (tag, x) for x in pr]
+            zero = lambda x: sp.simplify(sp.piecewise_fold(x)) == 0
+            if klass == 'duplicate':
+                if not (zero(d - M) and zero(e - M)):
+                    problems.append('%s: a duplicated species with mother count m ends as %s and %s in the daughters, expected m and m' % (tag, d, e))
+                continue
+            if not zero(d + e - M):
+                problems.append('%s: daughters get %s and %s, which do not sum to the mother count m' % (tag, d, e))
+            if 'binomial' in klass or klass == 'all':
+                if len(draws) != 1:
+                    problems.append('%s: %d binomial draws for one species' % (tag, len(draws)))
+                elif not zero(draws[0][0] - M):
+                    problems.append('%s: the binomial draw is over %s, not over the mother count' % (tag, draws[0][0]))
+                elif not zero(d - sp.Symbol('binomial#1', nonnegative=True)):
+                    problems.append('%s: the first daughter gets %s, not the binomial draw' % (tag, d))
+    return problems, n_cases
 
 
 def check_volumes(ctx, mod, cls, f, p_var):
